@@ -1,5 +1,6 @@
 import ZCV.Model.Conv
 import ZCV.Lemmas.Except
+import ZCV.Lemmas.LoadSpec
 namespace ZCV.Props.C02
 open ZCV ZCV.Cfg
 
@@ -40,5 +41,18 @@ theorem C02_attrs_exact (conv : Conv) (s : Schema) (m : Matcher) (ty : Str) (nm 
         cases hcc : constructChild conv s ci sl with
         | ok r => rw [hcc] at hab; simp [Except.map] at hab; subst hab; rfl
         | error e => rw [hcc] at hab; simp [Except.map] at hab
+
+open ZCV.Conf in
+/-- **The value tree is exactly what the schema defines**: whenever the loader returns a configuration it is `denote`,
+    the declarative value of `ZCV/Spec/Conforms.lean` (attributes in schema order; single key = converted value, else
+    converted default, else None; multikey = values in file order, else defaults; wildcard = mapping with schema defaults
+    only when no key is supplied; slot = the section's value passed through its datatype, or None; multisection = list in
+    file order; type and name reported) -/
+theorem C02_value_eq_denote (conv : Conv) (s : Schema) (items : List Item) (v : Val)
+    (hs : schemaOK s = true) (ht : tyCanon s items = true) (h : loadTree conv s items = .ok v) :
+    denote conv s items = some v := by
+  have e := loadTree_eq_denote conv s items hs ht
+  rw [h] at e
+  exact e.symm
 
 end ZCV.Props.C02
